@@ -375,11 +375,14 @@ def native_server_messages() -> tuple[bool, str]:
 
         async def handle_request(self, pdu: bytes) -> tuple[bytes | None, float]:
             seen.append(pdu)
+            if len(pdu) == 2 and pdu[1] == 0x80:
+                return None, 0.0  # a positive response the tester asked to suppress
             return b"\x7f" + pdu[:1] + b"\x11", 0.0
 
     async def go() -> tuple[bool, str]:
         reqs = [bytes([b, 0x01]) for b in range(256)] + [bytes([0, 0x10, 1]), b"\x00", b"\x01",
-                                                        bytes([0x0a]) * 5, bytes(range(16))]
+                                                        bytes([0x0a]) * 5, bytes(range(16)),
+                                                        b"\x3e\x80", b"\x10\x80"]
         for q in reqs:
             seen.clear()
             r = asyncio.StreamReader()
@@ -391,7 +394,8 @@ def native_server_messages() -> tuple[bool, str]:
             except Exception as e:  # noqa: BLE001
                 return True, f"request {q.hex()}: handle_client raised {type(e).__name__}: {e}"
             n_replies = len([x for x in w.data.split(b"\n") if x])
-            if seen != [q, b"\x3e\x00"] or n_replies != 2:
+            want_replies = 1 if (len(q) == 2 and q[1] == 0x80) else 2
+            if seen != [q, b"\x3e\x00"] or n_replies != want_replies:
                 return True, (f"tester wrote {q.hex()} and 3e00: the ECU model received "
                               f"{[x.hex() for x in seen]}, {n_replies} replies were sent")
         return False, "261 requests are handed over byte-exact and answered once each"
@@ -515,7 +519,7 @@ def native_replay(unit: str, obligation: str, model: dict) -> tuple[bool, str]:
         return native_server_order()
     if unit.startswith("stream-limit/"):
         return native_long_line(unit)
-    if unit.startswith("server/") and ("handed-over" in obligation or "loop-ends-only" in
+    if (unit.startswith("server/") or unit.startswith("transport/handle_client")) and ("handed-over" in obligation or "loop-ends-only" in
                                        obligation or "one-reply" in obligation):
         return native_server_messages()
     if "does-not-raise-when-the-client-disconnects" not in obligation:
